@@ -19,6 +19,17 @@ STYLES = {
        "bookkeeping the success path does; (e) behaviour that differs only after a node restart, an upgrade, or a "
        "genesis export/import. The effect should ideally appear only some operations or blocks after the faulty step, "
        "and only for some states."),
+ '6': ("Prefer one of these styles, whichever fits, and prefer the functions and modules listed above that the earlier "
+       "engineers did NOT touch: (a) the wrong one of two similar objects (owner vs sender, validator operator address vs "
+       "its account address vs its consensus address, the record before vs after an update, pool A vs pool B); (b) a "
+       "collection processed in a different order, or modified while iterated, where the order only matters for a "
+       "particular combination of elements; (c) a guard that is correct for the common lifecycle phase but wrong for a "
+       "rare one (an object being removed, paused, expired, not yet started, or re-created under an old name); (d) a "
+       "unit or scale mismatch (micro-units vs units, seconds vs blocks, percent vs fraction, inclusive vs exclusive "
+       "bounds) that is invisible for the default parameters; (e) an event / hook / index / counter that is no longer "
+       "updated on ONE of several code paths that reach the same state. Do NOT add in-memory caches or memoisation and "
+       "do not touch genesis import/export code (earlier engineers did). The effect should ideally appear only some "
+       "operations or blocks after the faulty step."),
  '5': ("Prefer one of these styles, whichever fits: (a) arithmetic: a changed rounding direction, order of "
        "multiplication and division, integer width or sign conversion that only matters for particular magnitudes; "
        "(b) iteration: an iterator bound, prefix or pagination change that only matters when a second object with a "
